@@ -331,6 +331,22 @@ def gen_gamma_sample(nrng, n):
 
 
 def oracle(nrng, problems, stats, k):
+    try:
+        return oracle_(nrng, problems, stats, k)
+    except Exception as ex:  # noqa: BLE001  - a real model raising on a valid zero-inflated sample
+        import traceback
+
+        where = [f for f in traceback.extract_tb(ex.__traceback__) if "ibicus" in f.filename]
+        n2 = np.random.default_rng(k)
+        n = int(n2.integers(20, 120))
+        data, shape, scale = gen_gamma_sample(n2, n)
+        problems.append((f"a precipitation model raises {type(ex).__name__}: {str(ex)[:120]} on a zero-inflated gamma sample with {int((data > 0).sum())} wet values "
+                         f"(gamma scale {scale}; in {where[-1].name if where else '?'})",
+                         {"data": data.tolist(), "gamma_shape": shape, "gamma_scale": scale, "numpy_seed_of_case": k},
+                         {"law": "exception", "exception": type(ex).__name__, "in": where[-1].name if where else "?"}))
+
+
+def oracle_(nrng, problems, stats, k):
     """one zero-inflated gamma sample through the three real models (real scipy gamma)"""
     from ibicus.utils import _math_utils as M
 
@@ -404,7 +420,7 @@ def oracle(nrng, problems, stats, k):
     # ---- hurdle with the rational double whose support starts at loc > 0 (ppf(0) = loc, as for a fitted location)
     loc = float(nrng.choice([0.25, 1.0]))
     dbl = make_double(loc, 2.0)
-    d2 = np.where(data > 0, data + loc, 0.0)
+    d2 = np.where(data > 0, data / scale + loc, 0.0)  # in units of the gamma scale, shifted into the double's support
     for rand in (True, False):
         model = M.gen_PrecipitationHurdleModel(distribution=dbl, fit_kwds=None, cdf_randomization=rand)
         np.random.seed(k)
@@ -413,7 +429,7 @@ def oracle(nrng, problems, stats, k):
         if np.any(back[d2 == 0] != 0):
             bad(f"hurdle (amounts family with support ({loc}, inf), cdf_randomization={rand}): ppf(cdf(0)) = {back[d2 == 0][back[d2 == 0] != 0][:3].tolist()} — a dry value does not stay dry",
                 {"model": "hurdle", "cdf_randomization": rand, "law": "dry", "family": "rational double with loc > 0"}, loc=loc, data_used=d2.tolist())
-        m = d2 > 0
+        m = (d2 - loc > 1e-4) & (d2 - loc < 1e4)  # float guard as for the gamma round trip: 1e-4 <~ F <~ 1 - 1e-4
         if np.any(np.abs(back[m] - d2[m]) > 1e-9 * d2[m]):
             bad("hurdle (rational double): wet round trip fails", {"model": "hurdle", "cdf_randomization": rand, "law": "wet_roundtrip", "family": "rational double with loc > 0"}, loc=loc)
         stats["hurdle_double_checks"] += 1
